@@ -3,6 +3,8 @@
 -/
 import Demeter.Uni.Mirror
 import Proofs.Lemmas.UniWallet
+import Proofs.Lemmas.UniInv
+import Mathlib.Tactic.Linarith
 namespace Demeter.Uni
 open Demeter
 
@@ -298,6 +300,362 @@ theorem pyMod_neg_zero (a : Int) (m : Nat) : (pyMod (-a) m == 0) = (pyMod a m ==
   unfold pyMod
   rw [Bool.eq_iff_iff]
   simp only [beq_iff_eq]
-  rw [Int.emod_eq_zero_iff_dvd... ]
+  constructor <;> intro h
+  · exact Int.emod_eq_zero_of_dvd ((Int.dvd_neg).mp (Int.dvd_of_emod_eq_zero h))
+  · exact Int.emod_eq_zero_of_dvd ((Int.dvd_neg).mpr (Int.dvd_of_emod_eq_zero h))
+
+/-- errors of `tick_to_base_unit_price` are the tick-bound assertion -/
+def TickErr (K : Kern) (pool : Pool) : Prop := ∀ t e, K.tickToPrice pool t = .error e → e = Err.assertion
+
+theorem mkPos_mirror (lo up liq : Int) (lp upp ip : Rat) : mPos (mkPos lo up liq lp upp ip) = mkPos (-up) (-lo) liq lp upp ip := rfl
+
+theorem newEntity_mirror {K K' : Kern} {pool : Pool} {ms : Nat → Nat} (hk : KernMirror K K' pool ms) (ht : TickErr K pool)
+    (s : State) (lo up liq : Int) (sqrt : Nat) :
+    newEntity K' (mPool pool) (mState s) (-up) (-lo) liq (ms sqrt) = (newEntity K pool s lo up liq sqrt).map (Option.map mPos) := by
+  unfold newEntity
+  simp only [mState_positions, findPos_mirror, hk.tickToPrice, hk.sqrtToPrice]
+  cases hf : findPos s.positions lo up with
+  | some p => rfl
+  | none =>
+    simp only [Option.map_none]
+    cases h1 : K.tickToPrice pool lo with
+    | error e1 =>
+      have := ht _ _ h1; subst this
+      cases h2 : K.tickToPrice pool up with
+      | error e2 => have := ht _ _ h2; subst this; rfl
+      | ok upp => rfl
+    | ok lp =>
+      cases h2 : K.tickToPrice pool up with
+      | error e2 => rfl
+      | ok upp =>
+        cases h3 : K.sqrtToPrice pool sqrt with
+        | error e3 => rfl
+        | ok ip =>
+          simp only [Except.map, Option.map_some, mPool]
+          by_cases hq : pool.q0 = true
+          · simp only [hq, Bool.not_true, Bool.false_eq_true, if_false, if_true, mkPos_mirror]
+          · have hq' : pool.q0 = false := by simpa using hq
+            simp only [hq', Bool.not_false, if_true, Bool.false_eq_true, if_false, mkPos_mirror]
+
+theorem addToPositions_mirror (ps : List Pos) (lo up liq : Int) (ent : Option Pos) :
+    addToPositions (ps.map mPos) (-up) (-lo) liq (ent.map mPos) = (addToPositions ps lo up liq ent).map mPos := by
+  cases ent with
+  | none =>
+    simp only [addToPositions, Option.map_none]
+    exact mapPos_mirror ps lo up _ _ (fun _ => rfl)
+  | some p => simp [addToPositions]
+
+theorem addRaw_mirror {K K' : Kern} {pool : Pool} {ms : Nat → Nat} (hk : KernMirror K K' pool ms) (ht : TickErr K pool)
+    (s : State) (a0 a1 : Rat) (lo up : Int) (hw : WalletHas pool s.wallet) (hne : pool.tok0 ≠ pool.tok1) :
+    addRaw K' (mPool pool) (mState s) a1 a0 (-up) (-lo) none =
+      ((addRaw K pool s a0 a1 lo up none).1.map (fun r => (-r.2.1, -r.1, r.2.2.2.1, r.2.2.1, r.2.2.2.2)),
+       mState (addRaw K pool s a0 a1 lo up none).2) := by
+  unfold addRaw
+  have hgt : (-up > -lo) ↔ (lo > up) := by constructor <;> intro h <;> omega
+  simp only [mState_isOpen, mPool_spacing, pyMod_neg_zero, resolveSqrt_mirror hk, hgt,
+    Bool.and_comm (pyMod up pool.spacing == 0), Bool.or_comm (decide (a1 < 0))]
+  split
+  · rfl
+  · split
+    · rfl
+    · cases hr : resolveSqrt K pool s none with
+      | error e => rfl
+      | ok sqrt =>
+        simp only [Except.map]
+        split
+        · rfl
+        · split
+          · rfl
+          · simp only [hk.newPos]
+            cases hn : K.newPos pool sqrt lo up a0 a1 with
+            | error e => rfl
+            | ok r =>
+              obtain ⟨u0, u1, liq⟩ := r
+              simp only [Except.map, newEntity_mirror hk ht]
+              cases he : newEntity K pool s lo up liq sqrt with
+              | error e => rfl
+              | ok ent =>
+                simp only [Except.map, hk.cx, mState_wallet, mState_allowNeg, mPool_tok0, mPool_tok1,
+                  debit2_comm K.cx s.wallet pool.tok1 pool.tok0 u1 u0 s.allowNeg hne.symm hw.2 hw.1]
+                cases hd : debit2 K.cx s.wallet pool.tok0 u0 pool.tok1 u1 s.allowNeg with
+                | error e => rfl
+                | ok w2 =>
+                  simp only [Except.map, mState_positions, addToPositions_mirror]
+                  rfl
+
+theorem addRaw_wallet_has {K : Kern} {pool : Pool} {s s' : State} {a0 a1 : Rat} {lo up : Int} {sq : Option Nat}
+    {v : Int × Int × Rat × Rat × Int} (h : addRaw K pool s a0 a1 lo up sq = (.ok v, s')) : True := trivial
+
+theorem roundHalfEvenNat_zero (d : Nat) : roundHalfEvenNat 0 d = 0 := by
+  unfold roundHalfEvenNat
+  simp only [Nat.zero_div, Nat.zero_mod, Nat.mul_zero]
+  split
+  · rfl
+  · split
+    · rename_i h; omega
+    · rfl
+
+theorem roundDivHalfEven_neg (t : Int) (sp : Nat) : roundDivHalfEven (-t) sp = -roundDivHalfEven t sp := by
+  unfold roundDivHalfEven
+  simp only [Int.natAbs_neg]
+  by_cases h0 : t = 0
+  · subst h0; simp [roundHalfEvenNat_zero]
+  · by_cases hneg : t < 0
+    · have h1 : ¬ (-t < 0) := by omega
+      simp only [hneg, h1, if_true, if_false, Int.neg_neg]
+    · have h1 : -t < 0 := by omega
+      simp only [hneg, h1, if_true, if_false]
+
+theorem clamp_neg (r sp : Int) (B : Nat) :
+    (if -r < -(B : Int) then -r + sp else if -r > (B : Int) then -r - sp else -r) =
+      -(if r < -(B : Int) then r + sp else if r > (B : Int) then r - sp else r) := by
+  split <;> split <;> (try split) <;> (try split) <;> omega
+
+theorem nearestUsable_neg (t : Int) (sp : Nat) : nearestUsable (-t) sp = -nearestUsable t sp := by
+  unfold nearestUsable minTick maxTick
+  simp only [roundDivHalfEven_neg, Int.neg_mul]
+  exact clamp_neg _ _ _
+
+theorem mPool_conv' {α : Type} (p : Pool) (b q : α) : (mPool p).conv b q = ((p.conv b q).2, (p.conv b q).1) := by
+  unfold Pool.conv mPool; cases p.q0 <;> rfl
+
+theorem stripLog_mState (s : State) : stripLog (mState s) = mState (stripLog s) := rfl
+theorem stripLog_record (s : State) (a : Act) : stripLog (Uni.record s a) = stripLog s := rfl
+
+theorem addRaw_ok_walletHas {K : Kern} {pool : Pool} {s s' : State} {a0 a1 : Rat} {lo up : Int} {sq : Option Nat}
+    {v : Int × Int × Rat × Rat × Int} (h : addRaw K pool s a0 a1 lo up sq = (.ok v, s')) (hw : WalletHas pool s.wallet) :
+    WalletHas pool s'.wallet := by
+  have := addRaw_wrel K pool s a0 a1 lo up sq
+  rw [h] at this
+  exact ⟨this.1 _ hw.1, this.1 _ hw.2⟩
+
+theorem addRaw_key {K : Kern} {pool : Pool} {s s' : State} {a0 a1 : Rat} {lo up : Int} {sq : Option Nat}
+    {l u : Int} {u0 u1 : Rat} {liq : Int} (h : addRaw K pool s a0 a1 lo up sq = (.ok (l, u, u0, u1, liq), s')) :
+    l = lo ∧ u = up := by
+  unfold addRaw at h
+  repeat' split at h
+  all_goals first
+    | (injection h with h1 _; cases h1 <;> exact ⟨rfl, rfl⟩)
+
+/-- `addAndLog` on the mirror: same outcome (position key mirrored), mirrored state; the action record carries
+    whatever prices the caller passes -/
+theorem addAndLog_mirror {K K' : Kern} {pool : Pool} {ms : Nat → Nat} (hk : KernMirror K K' pool ms) (ht : TickErr K pool)
+    (s : State) (b q : Rat) (lo up : Int) (lp upp lp' upp' : Rat) (hw : WalletHas pool s.wallet) (hne : pool.tok0 ≠ pool.tok1) :
+    (addAndLog K' (mPool pool) (mState s) b q (-up) (-lo) none lp' upp').1 =
+        (addAndLog K pool s b q lo up none lp upp).1.map mKeyResult ∧
+    stripLog (addAndLog K' (mPool pool) (mState s) b q (-up) (-lo) none lp' upp').2 =
+        stripLog (mState (addAndLog K pool s b q lo up none lp upp).2) ∧
+    ((lp' = lp ∧ upp' = upp) → (addAndLog K' (mPool pool) (mState s) b q (-up) (-lo) none lp' upp').2 =
+        mState (addAndLog K pool s b q lo up none lp upp).2) := by
+  unfold addAndLog
+  simp only [mPool_conv' pool b q]
+  rw [addRaw_mirror hk ht s (pool.conv b q).1 (pool.conv b q).2 lo up hw hne]
+  cases hr : addRaw K pool s (pool.conv b q).1 (pool.conv b q).2 lo up none with
+  | mk out s1 =>
+    cases out with
+    | error e => exact ⟨rfl, rfl, fun _ => rfl⟩
+    | ok v =>
+      obtain ⟨l, u, u0, u1, liq⟩ := v
+      simp only [Except.map, mPool_conv, mState_wallet, mPool_baseTok, mPool_quoteTok]
+      cases hb : balanceOf s1.wallet pool.baseTok with
+      | error e => exact ⟨rfl, rfl, fun _ => rfl⟩
+      | ok bb =>
+        cases hq : balanceOf s1.wallet pool.quoteTok with
+        | error e => exact ⟨rfl, rfl, fun _ => rfl⟩
+        | ok qb =>
+          refine ⟨?_, rfl, ?_⟩
+          · have hv := addRaw_key hr
+            simp only [Except.map, mKeyResult, hv.1, hv.2, Int.cast_neg]
+          · rintro ⟨rfl, rfl⟩; rfl
+
+/-- outcome and economic state of an operation on the mirror vs. on the original -/
+def MirrorStep (op : Op) (r r' : Res) : Prop :=
+  r'.1 = r.1.map (mResult op) ∧ stripLog r'.2 = stripLog (mState r.2)
+
+theorem MirrorStep.ofEq {op : Op} {r r' : Res} (h : r' = mRes r) (hres : ∀ v, r.1 = .ok v → mResult op v = v) : MirrorStep op r r' := by
+  subst h
+  refine ⟨?_, rfl⟩
+  cases hr : r.1 with
+  | error e => simp [mRes, hr, Except.map]
+  | ok v => simp [mRes, hr, Except.map, hres v hr]
+
+theorem addByTick_mirror {K K' : Kern} {pool : Pool} {ms : Nat → Nat} (hk : KernMirror K K' pool ms) (ht : TickErr K pool)
+    (s : State) (lo up : Int) (b q : Option Rat) (trim : Bool) (hw : WalletHas pool s.wallet) (hne : pool.tok0 ≠ pool.tok1) :
+    MirrorStep (.addByTick lo up b q none none trim) (addByTick K pool s lo up b q none none trim)
+      (addByTick K' (mPool pool) (mState s) (-up) (-lo) b q none none trim) := by
+  unfold addByTick
+  -- the ticks after trimming and ordering are mirrored
+  have key : ∀ (l u : Int),
+      (if -u > -l then (-l, -u) else (-u, -l)) = (-(if l > u then (u, l) else (l, u)).2, -(if l > u then (u, l) else (l, u)).1) := by
+    intro l u; by_cases h : l > u
+    · have : -u > -l := by omega
+      simp [h, this]
+    · have : ¬ (-u > -l) := by omega
+      simp [h, this]
+  simp only [mPool_spacing, sqrtOrTick, mState_wallet, mPool_baseTok, mPool_quoteTok]
+  cases trim with
+  | true =>
+    simp only [if_true, nearestUsable_neg, key]
+    cases hb : orBalance s.wallet pool.baseTok b with
+    | error e => exact ⟨rfl, rfl⟩
+    | ok bv =>
+      cases hq : orBalance s.wallet pool.quoteTok q with
+      | error e => exact ⟨rfl, rfl⟩
+      | ok qv =>
+        simp only []
+        have h := addAndLog_mirror hk ht s bv qv
+          (if nearestUsable lo pool.spacing > nearestUsable up pool.spacing then (nearestUsable up pool.spacing, nearestUsable lo pool.spacing) else (nearestUsable lo pool.spacing, nearestUsable up pool.spacing)).1
+          (if nearestUsable lo pool.spacing > nearestUsable up pool.spacing then (nearestUsable up pool.spacing, nearestUsable lo pool.spacing) else (nearestUsable lo pool.spacing, nearestUsable up pool.spacing)).2
+        exact ⟨(h _ _ _ _ hw hne).1, (h _ _ _ _ hw hne).2.1⟩
+  | false =>
+    simp only [Bool.false_eq_true, if_false, key]
+    cases hb : orBalance s.wallet pool.baseTok b with
+    | error e => exact ⟨rfl, rfl⟩
+    | ok bv =>
+      cases hq : orBalance s.wallet pool.quoteTok q with
+      | error e => exact ⟨rfl, rfl⟩
+      | ok qv =>
+        simp only []
+        have h := addAndLog_mirror hk ht s bv qv (if lo > up then (up, lo) else (lo, up)).1 (if lo > up then (up, lo) else (lo, up)).2
+        exact ⟨(h _ _ _ _ hw hne).1, (h _ _ _ _ hw hne).2.1⟩
+
+theorem addByPrice_mirror {K K' : Kern} {pool : Pool} {ms : Nat → Nat} (hk : KernMirror K K' pool ms) (ht : TickErr K pool)
+    (s : State) (lp up : Rat) (lt ut : Int) (q b : Option Rat) (hw : WalletHas pool s.wallet) (hne : pool.tok0 ≠ pool.tok1) :
+    MirrorStep (.addByPrice lp up lt ut q b) (addByPrice K pool s lp up lt ut q b)
+      (addByPrice K' (mPool pool) (mState s) lp up (-lt) (-ut) q b) := by
+  unfold addByPrice
+  simp only [mPool_spacing, mState_wallet, mPool_baseTok, mPool_quoteTok]
+  cases hb : orBalance s.wallet pool.baseTok b with
+  | error e => exact ⟨rfl, rfl⟩
+  | ok bv =>
+    cases hq : orBalance s.wallet pool.quoteTok q with
+    | error e => exact ⟨rfl, rfl⟩
+    | ok qv =>
+      simp only []
+      have key : (if (mPool pool).q0 = true then (-ut, -lt) else (-lt, -ut)) =
+          (-(if pool.q0 = true then (ut, lt) else (lt, ut)).2, -(if pool.q0 = true then (ut, lt) else (lt, ut)).1) := by
+        unfold mPool; cases pool.q0 <;> rfl
+      rw [key]
+      simp only [nearestUsable_neg]
+      have h := addAndLog_mirror hk ht s bv qv
+        (nearestUsable (if pool.q0 = true then (ut, lt) else (lt, ut)).1 pool.spacing)
+        (nearestUsable (if pool.q0 = true then (ut, lt) else (lt, ut)).2 pool.spacing) lp up lp up hw hne
+      exact ⟨h.1, h.2.1⟩
+
+theorem swapPrice_mirror {K K' : Kern} (hcx : K'.cx = K.cx) (pool : Pool) (s : State) (f : String) (g : Option Rat) :
+    swapPrice K' (mPool pool) (mState s) f g = swapPrice K pool s f g := by
+  unfold swapPrice
+  cases g with
+  | some p => rfl
+  | none => simp only [priceOf_mirror, mPool_baseTok, hcx]
+
+theorem swap_mirror {K K' : Kern} (hcx : K'.cx = K.cx) (pool : Pool) (s : State) (a : Rat) (f t : String) (p : Option Rat)
+    (log : Bool) :
+    swap K' (mPool pool) (mState s) a f t p log = ((swap K pool s a f t p log).1, mState (swap K pool s a f t p log).2) := by
+  unfold swap
+  simp only [mPool_baseTok, mPool_quoteTok, swapPrice_mirror hcx, mState_wallet, mState_allowNeg, hcx, mPool_feeRate]
+  repeat' split
+  all_goals rfl
+
+theorem orMarketPrice_mirror (s : State) (g : Option Rat) : orMarketPrice (mState s) g = orMarketPrice s g := by
+  unfold orMarketPrice; cases g <;> simp
+
+theorem buy_mirror {K K' : Kern} (hcx : K'.cx = K.cx) (pool : Pool) (s : State) (a : Rat) (p : Option Rat) :
+    buy K' (mPool pool) (mState s) a p = mRes (buy K pool s a p) := by
+  unfold buy
+  simp only [mPool_baseTok, mPool_quoteTok, mPool_feeRate, hcx, swap_mirror hcx, mState_wallet, orMarketPrice_mirror]
+  split
+  · rfl
+  · cases orMarketPrice s (givenPrice p) with
+    | error e => rfl
+    | ok price =>
+      simp only []
+      split
+      · rfl
+      · split
+        · rfl
+        · generalize swap K pool s (K.cx.div (K.cx.mul a price) (K.cx.sub 1 pool.feeRate)) pool.quoteTok pool.baseTok
+            (some (K.cx.div 1 price)) false = r
+          obtain ⟨out, s1⟩ := r
+          cases out with
+          | error e => rfl
+          | ok v =>
+            obtain ⟨fee, got⟩ := v
+            simp only [mState_wallet]
+            cases balanceOf s1.wallet pool.baseTok <;> cases balanceOf s1.wallet pool.quoteTok <;> rfl
+
+theorem sell_mirror {K K' : Kern} (hcx : K'.cx = K.cx) (pool : Pool) (s : State) (a : Rat) (p : Option Rat) :
+    sell K' (mPool pool) (mState s) a p = mRes (sell K pool s a p) := by
+  unfold sell
+  simp only [mPool_baseTok, mPool_quoteTok, mPool_feeRate, hcx, swap_mirror hcx, mState_wallet, orMarketPrice_mirror]
+  split
+  · rfl
+  · cases orMarketPrice s (givenPrice p) with
+    | error e => rfl
+    | ok price =>
+      simp only []
+      generalize swap K pool s a pool.baseTok pool.quoteTok (some price) false = r
+      obtain ⟨out, s1⟩ := r
+      cases out with
+      | error e => rfl
+      | ok v =>
+        obtain ⟨fee, got⟩ := v
+        simp only [mState_wallet]
+        cases balanceOf s1.wallet pool.baseTok <;> cases balanceOf s1.wallet pool.quoteTok <;> rfl
+
+theorem evenRebalance_mirror {K K' : Kern} (hcx : K'.cx = K.cx) (pool : Pool) (s : State) (p : Option Rat) :
+    evenRebalance K' (mPool pool) (mState s) p = mRes (evenRebalance K pool s p) := by
+  unfold evenRebalance
+  simp only [orMarketPrice_mirror, mPool_baseTok, mPool_quoteTok, mPool_feeRate, hcx, mState_wallet, buy_mirror hcx, sell_mirror hcx]
+  cases orMarketPrice s p with
+  | error e => rfl
+  | ok price =>
+    simp only []
+    cases balanceOf s.wallet pool.quoteTok with
+    | error e => rfl
+    | ok q =>
+      cases balanceOf s.wallet pool.baseTok with
+      | error e => rfl
+      | ok b =>
+        simp only []
+        split
+        · rfl
+        · split
+          · generalize buy K pool s _ none = r
+            obtain ⟨out, s1⟩ := r
+            cases out <;> rfl
+          · split
+            · generalize sell K pool s _ none = r
+              obtain ⟨out, s1⟩ := r
+              cases out <;> rfl
+            · rfl
+
+theorem transferOut_mirror (s : State) (lo up : Int) : transferOut (mState s) (-up) (-lo) = mRes (transferOut s lo up) := by
+  unfold transferOut
+  simp only [mState_positions, findPos_mirror]
+  cases hf : findPos s.positions lo up with
+  | none => rfl
+  | some p =>
+    simp only [Option.map_some, mPos_transferred]
+    by_cases ht : p.transferred = true
+    · simp only [ht, Bool.not_true, Bool.false_eq_true, if_false]; rfl
+    · have ht' : p.transferred = false := by simpa using ht
+      simp only [ht', Bool.not_false, if_true, mRes]
+      rw [mapPos_mirror s.positions lo up (fun p => { p with transferred := true }) (fun p => { p with transferred := true }) (fun _ => rfl)]
+      rfl
+
+theorem transferIn_mirror (s : State) (lo up : Int) : transferIn (mState s) (-up) (-lo) = mRes (transferIn s lo up) := by
+  unfold transferIn
+  simp only [mState_positions, findPos_mirror]
+  cases hf : findPos s.positions lo up with
+  | none => rfl
+  | some p =>
+    simp only [Option.map_some, mPos_transferred]
+    by_cases ht : p.transferred = true
+    · simp only [ht, if_true, mRes]
+      rw [mapPos_mirror s.positions lo up (fun p => { p with transferred := false }) (fun p => { p with transferred := false }) (fun _ => rfl)]
+      rfl
+    · have ht' : p.transferred = false := by simpa using ht
+      simp only [ht', Bool.false_eq_true, if_false]; rfl
 
 end Demeter.Uni
